@@ -915,6 +915,107 @@ fn txtbuild_cases(out: &mut Out, r: &mut Rng, n: u64) {
     }
 }
 
+/// TxtBuilder at the RDATA size limit.  Text (fill octet `a`) is appended through every entry
+/// point (s = append_slice, u = append_u8 per octet, c = append_charstr) so that the RDATA ends
+/// 2, 1, 0 octets below and 1, 2 octets above 65535.  T2 `txtlim` plus oracle
+///   txtbuilder_limit      the builder (and build_from_slice) never hands out TXT data of more
+///                         than 65535 octets and does not refuse data that fits; what it hands
+///                         out has an exact rdlen / compose_len_rdata and parses back equal
+/// The expected size is computed here from the lengths alone (one length octet per started
+/// string of at most 255 octets), independently of the library.
+fn txtlim_step(st: (usize, Option<usize>), op: (char, usize)) -> (usize, Option<usize>) {
+    let (mut size, mut open) = st;
+    match op.0 {
+        'c' => (size + 1 + op.1, None),
+        _ => { for _ in 0..op.1 { match open { Some(o) if o < 255 => { size += 1; open = Some(o + 1) } _ => { size += 2; open = Some(1) } } } (size, open) }
+    }
+}
+fn txtlim_case(out: &mut Out, ops: &[(char, usize)], kind: &str) {
+    use domain::rdata::rfc1035::TxtBuilder;
+    const MAX: usize = 65535;
+    let case = format!("txtlim {}", ops.iter().map(|(k, l)| format!("{}:{}", k, l)).collect::<Vec<_>>().join(" "));
+    out.begin(&case);
+    let expect = ops.iter().fold((0usize, None), |st, op| txtlim_step(st, *op)).0.max(1);
+    let r = catch_mut(|| -> Result<Txt<Vec<u8>>, ()> {
+        let mut b = TxtBuilder::<Vec<u8>>::new();
+        for (k, l) in ops {
+            let d = vec![b'a'; *l];
+            match k { 's' => b.append_slice(&d).map_err(|_| ())?,
+                      'u' => { for x in &d { b.append_u8(*x).map_err(|_| ())?; } }
+                      _ => b.append_charstr(&CharStr::from_octets(d).map_err(|_| ())?).map_err(|_| ())? }
+        }
+        b.finish().map_err(|_| ())
+    });
+    if !ops.iter().any(|(k, _)| *k == 'c') {
+        let text = vec![b'a'; ops.iter().map(|(_, l)| *l).sum()];
+        match catch_mut(|| Txt::<Vec<u8>>::build_from_slice(&text).map(|t| t.len()).map_err(|_| ())) {
+            Ok(Ok(n)) => chk(out, n <= MAX && n == expect, "txtbuilder_limit", &case, &format!("build_from_slice handed out {} octets of TXT RDATA (expected {}, limit 65535)", n, expect)),
+            Ok(Err(())) => chk(out, expect > MAX, "txtbuilder_limit", &case, &format!("build_from_slice refused text that makes {} octets of RDATA", expect)),
+            Err(e) => chk(out, false, "txtbuilder_panic", &case, &e),
+        }
+    }
+    let txt = match r {
+        Ok(Ok(t)) => t,
+        Ok(Err(())) => { out.case(&case, "Reject", expect > MAX, kind);
+                         chk(out, expect > MAX, "txtbuilder_limit", &case, &format!("builder refused text that makes {} octets of RDATA", expect)); return; }
+        Err(e) => { out.case(&case, "Panic", true, kind); chk(out, false, "txtbuilder_panic", &case, &e); return; }
+    };
+    let built: Built = AllRecordData::Txt(txt.clone());
+    let wire = compose_plain(&built).unwrap_or_default();
+    let mut lens: Vec<usize> = vec![]; let mut i = 0;
+    while i < wire.len() { let l = wire[i] as usize; lens.push(l.min(wire.len() - i - 1)); i += 1 + l; }
+    out.case(&case, &format!("Ok {} {} {}", wire.len(), lens.len(), lens.last().copied().unwrap_or(0)), true, kind);
+    chk(out, wire.len() <= MAX, "txtbuilder_limit", &case, &format!("builder accepted TXT RDATA of {} octets (limit is 65535)", wire.len()));
+    chk(out, wire.len() == expect && i == wire.len(), "txtbuilder_text", &case, &format!("built RDATA has {} octets, the appended text makes {}", wire.len(), expect));
+    match catch_mut(|| txt.rdlen(false)) {
+        Ok(l) => chk(out, l.map(usize::from) == Some(wire.len()), "txtbuilder_limit", &case, &format!("rdlen {:?} for {} octets written", l, wire.len())),
+        Err(e) => chk(out, false, "txtbuilder_limit", &case, &format!("rdlen of the built value panicked: {}", e)),
+    }
+    match catch_mut(|| { let mut t: Vec<u8> = Vec::new(); txt.compose_len_rdata(&mut t).map(|_| t).map_err(|_| ()) }) {
+        Ok(Ok(t)) => { chk(out, t.len() == 2 + wire.len() && t.len() >= 2 && usize::from(u16::from_be_bytes([t[0], t[1]])) == wire.len() && t[2..] == wire[..],
+                           "txtbuilder_limit", &case, "compose_len_rdata: advertised length differs from the octets written");
+                       if wire.len() <= MAX { match parse_at(16, &wire, 0, wire.len()) {
+                           Ok(Ok(p)) => chk(out, catch_mut(|| p == built).unwrap_or(false), "txtbuilder_roundtrip", &case, "parsed value != built value"),
+                           _ => chk(out, false, "txtbuilder_roundtrip", &case, "built RDATA does not parse") } } }
+        Ok(Err(())) => chk(out, false, "txtbuilder_limit", &case, "compose_len_rdata refused the built value"),
+        Err(e) => chk(out, false, "txtbuilder_limit", &case, &format!("compose_len_rdata of the built value panicked: {}", e)),
+    }
+}
+fn txtlim_cases(out: &mut Out, r: &mut Rng, n: u64) {
+    const MAX: usize = 65535;
+    let mut prefixes: Vec<(Vec<(char, usize)>, &str)> = vec![
+        (vec![('c', 255); 255], "corpus"),
+        (vec![('s', 65025)], "corpus"),
+        (vec![('s', 65000)], "corpus"),
+        (vec![('u', 300), ('c', 0), ('s', 64500)], "corpus"),
+        (vec![('s', 1)], "corpus"),
+        (vec![], "corpus"),
+    ];
+    for _ in 0..(n / 50).min(12) {
+        let mut p: Vec<(char, usize)> = (0..r.below(60)).map(|_| ('c', *r.pick(&[255usize, 255, 254, 0, 1, 100]))).collect();
+        let used = p.iter().fold((0usize, None), |st, op| txtlim_step(st, *op)).0;
+        let rest = (MAX - used) * 255 / 256;
+        p.push((*r.pick(&['s', 's', 's', 'u']), rest - (r.below(700) as usize).min(rest)));
+        if r.below(2) == 0 { p.push(('c', r.below(40) as usize)); }
+        prefixes.push((p, "txtlim"));
+    }
+    for (p, kind) in &prefixes {
+        let st = p.iter().fold((0usize, None), |st, op| txtlim_step(st, *op));
+        for k in ['s', 'u', 'c'] {
+            if k == 'u' && st.0 + 2000 < MAX { continue; }   // bulk octet by octet: the u prefixes
+            for target in MAX - 2..=MAX + 2 {
+                // the shortest last piece that brings the RDATA to `target` octets, if there is one
+                let top = if k == 'c' { 255 } else { MAX + 300 };
+                let mut l = if k == 'c' || st.0 + 1024 > target { 0 } else { (target - st.0 - 1024) * 255 / 256 };
+                while l <= top && txtlim_step(st, (k, l)).0 < target { l += 1; }
+                if l > top || txtlim_step(st, (k, l)).0 != target { continue; }
+                let mut ops = p.clone(); ops.push((k, l));
+                txtlim_case(out, &ops, kind);
+            }
+        }
+    }
+}
+
 /// parse cases derived from one value
 fn parse_cases_for(out: &mut Out, r: &mut Rng, t: u16, v: &[Val]) {
     let fs = fields_v(t, v);
@@ -1754,6 +1855,7 @@ fn main() {
         }
     }
     txtbuild_cases(&mut out, &mut r, n);
+    txtlim_cases(&mut out, &mut r, n);
     irregular::run(&mut out, &mut r, n);
     edns::run(&mut out, &mut r, n);
     svc::run(&mut out, &mut r, n);
